@@ -285,6 +285,22 @@ class Connection(
             else:
                 return main.CONNECTION_LOST
 
+    def loseWriteConnection(self):
+        """
+        Half-close the write side of the connection once the buffered data
+        has been written.
+
+        Calling this again after the write side has been shut down, or after
+        the connection has been lost, does nothing: re-registering the
+        descriptor for writing then would make C{doWrite} call C{send} on a
+        socket whose write side is shut down (C{EPIPE}, reported as
+        L{ConnectionLost <error.ConnectionLost>}) or hand a closed descriptor
+        to the reactor.
+        """
+        if not self.connected or self._writeDisconnected:
+            return
+        abstract.FileDescriptor.loseWriteConnection(self)
+
     def _closeWriteConnection(self):
         try:
             self.socket.shutdown(1)
